@@ -36,27 +36,8 @@ def _unwrapped_phase(ctx, spec, search, replace):
     """Bystander atoms (atoms of no planted copy or decoy) stored outside the cell box: whatever the search makes of them, the
     caller's structure must come back unmodified, and such an atom - if no found match contains it - must be in the result
     exactly where it was stored."""
-    import copy
-    cell = np.array(spec["cell"], float)
-    sp2 = copy.deepcopy(spec)
-    moved = {}
-    # bystanders of an element the pattern does not contain (they can be part of no match), stored outside the cell box
-    sp2["atom_type_elements"] = list(spec["atom_type_elements"]) + ["Kr"]
-    sp2["atom_type_labels"] = list(spec["atom_type_labels"]) + ["Kr_out"]
-    sp2["atom_type_masses"] = list(spec["atom_type_masses"]) + [83.798]
-    for k, x in enumerate(spec["unwrap"]["picks"]):
-        sh = np.array(spec["unwrap"]["shifts"][k % 4], float)
-        if not sh.any():
-            sh = np.array([0.0, -1.0, 1.0])
-        f = np.array([x, (x * 7.3) % 1.0, (x * 13.7) % 1.0])
-        moved[len(sp2["elements"])] = sh
-        sp2["elements"].append("Kr")
-        sp2["positions"].append(((f + sh) @ cell).tolist())
-        sp2["atom_types"].append(len(sp2["atom_type_elements"]) - 1)
-        sp2["charges"].append(0.25 * (k + 1))
-        sp2["groups"].append(k)
-    pos = np.array(sp2["positions"], float).reshape(-1, 3)
-    spec = sp2
+    spec, moved = replcheck.add_outside_bystanders(spec, spec["unwrap"])
+    pos = np.array(spec["positions"], float).reshape(-1, 3)
     structure = replcheck.build_structure(spec)
     snap = replcheck.snapshot(structure)
     run = replcheck.run_replace(ctx, structure, search, replace, spec, spec["scripts"][0])
@@ -108,6 +89,25 @@ def execute(spec, ctx):
             r = findcheck.call_find(ctx, structure, search, spec["atol"], spec["hints"])
             run.found = ([tuple(int(i) for i in t) for t in r[0]], np.asarray(r[1], float), r[2])
             run.selected = list(range(len(r[0]))) if run.sampled is None else [int(i) for i in run.sampled]
+        if k == 0 and not getattr(run, "found_reconstructed", False):
+            # "only FOUND matches are replaced, f times the number FOUND": found means found by the search with the caller's own
+            # arguments (tolerance, hints).  The public search, given what the replacement hands to its search (the pattern with its
+            # first atom at the origin) under the same script, must see the same atom groups as the replacement worked on.
+            import mofun
+            ctx.rng.reset(script)
+            s0 = search.copy()
+            s0.translate(-np.array(s0.positions[0], float))
+            try:
+                pub = mofun.find_pattern_in_structure(structure, s0, atol=spec["atol"], **findcheck.hint_kwargs(spec.get("hints")))
+            except Exception:
+                pub = None
+            if pub is not None:
+                g_pub = sorted(sorted(int(i) for i in t) for t in pub)
+                g_in = sorted(sorted(int(i) for i in t) for t in run.found[0])
+                if g_pub != g_in:
+                    raise Violation("c04:replacement-searched-differently", "the replacement worked on %d matches, the search with the same tolerance and hints finds %d (e.g. %s)"
+                                    % (len(g_in), len(g_pub), [g for g in g_pub if g not in g_in][:1] or [g for g in g_in if g not in g_pub][:1]), site="replace")
+                ctx.count("inner_search_equals_public_search")
         M = len(run.found[0])
         f = spec["fraction"]
         rep = run.reported
